@@ -11,7 +11,6 @@ import (
 	"strings"
 
 	g "github.com/zenon-network/go-zenon/chain/genesis/mock"
-	"github.com/zenon-network/go-zenon/rpc/api"
 	"github.com/zenon-network/go-zenon/rpc/api/embedded"
 	rpcserver "github.com/zenon-network/go-zenon/rpc/server"
 )
@@ -34,20 +33,34 @@ func init() {
 	// request that was being served
 	register("rpcserver", func(c *Ctx) {
 		cmd := exec.Command(os.Args[0], "rpcserver-child", fmt.Sprint(c.Seed), fmt.Sprint(c.N))
-		out, err := cmd.Output()
 		last := "<none>"
 		finished := false
-		for _, line := range strings.Split(string(out), "\n") {
-			switch {
-			case strings.HasPrefix(line, "REQ "):
-				last = line[4:]
-			case strings.HasPrefix(line, "HIT "):
-				c.Hit(line[4:])
-			case strings.HasPrefix(line, "FAIL "):
-				c.Fail("%s", line[5:])
-			case line == "CHILD-FINISHED":
-				finished = true
+		// the child's output is read line by line while it runs (the rpc-req lines of a thorough run are some hundred MB)
+		pipe, err := cmd.StdoutPipe()
+		if err == nil {
+			err = cmd.Start()
+		}
+		if err == nil {
+			sc := bufio.NewScanner(pipe)
+			sc.Buffer(make([]byte, 1<<20), 1<<28)
+			for sc.Scan() {
+				line := sc.Text()
+				switch {
+				case strings.HasPrefix(line, "REQ "):
+					last = line[4:]
+				case strings.HasPrefix(line, "HIT "):
+					c.Hit(line[4:])
+				case strings.HasPrefix(line, "FAIL "):
+					c.Fail("%s", line[5:])
+				case strings.HasPrefix(line, "LINE "):
+					// one structured request with the shape of the real server's answer: recomputed by the Lean dispatch model
+					c.Emit(line[5:])
+				case line == "CHILD-FINISHED":
+					finished = true
+				}
 			}
+			io.Copy(io.Discard, pipe)
+			err = cmd.Wait()
 		}
 		if err != nil || !finished {
 			c.Fail("C18: the JSON-RPC server process terminated (%v) while serving the request [%s]", err, last)
@@ -90,11 +103,16 @@ func rpcServerChild(seed int64, nreq int) {
 				c.Fail("rpcserver: register: %v", err)
 			}
 		}
-		must(srv.RegisterName("ledger", api.NewLedgerApi(n.Z)))
-		must(srv.RegisterName("embedded.token", embedded.NewTokenApi(n.Z)))
-		must(srv.RegisterName("embedded.pillar", embedded.NewPillarApi(n.Z, true)))
-		must(srv.RegisterName("embedded.plasma", embedded.NewPlasmaApi(n.Z)))
-		must(srv.RegisterName("embedded.stake", embedded.NewStakeApi(n.Z)))
+		// every service of rpc.GetApis("ledger", "embedded") — the registry that f_rpcserver.go describes to the Lean model
+		for _, a := range rpcServedApis(n.Z) {
+			svc := a.Service
+			if a.Namespace == "embedded.pillar" {
+				svc = embedded.NewPillarApi(n.Z, true) // synchronous weights (the node's variant refreshes them in the background)
+			}
+			must(srv.RegisterName(a.Namespace, svc))
+		}
+		registry, err := rpcRegistryFacts()
+		must(err)
 
 		H := n.Height()
 		fmo, _ := n.Chain().GetFrontierMomentumStore().GetFrontierMomentum()
@@ -176,7 +194,7 @@ func rpcServerChild(seed int64, nreq int) {
 				return []byte("\x00\xff\xfe{}")
 			}
 		}
-		sb := &batchGen{c: c, valid: valid, addr: addr}
+		sb := &batchGen{c: c, valid: valid, addr: addr, registry: registry}
 		for i := 0; i < c.N; i++ {
 			var body []byte
 			kind := "mutated"
